@@ -134,6 +134,39 @@ class Gen:
             return [s_for(s_decl(i, T("int"), i_e(lit("int", 0))), bin_("<", var(i), lit("int", len(probes))), s_expr(incdec(var(i))),
                           s_switch(idx(var(arr), var(i)), body))]
 
+    def vtypedef(self, sc):
+        """a variably modified typedef name: its size is fixed when the typedef is reached (6.8p3), whatever path first uses the name"""
+        r = self.r
+        n, td, t, ln = self.fresh("n"), self.fresh("VT"), r.choice(ALL), r.randrange(1, 6)
+        two = r.random() < 0.3
+        m, lm = self.fresh("m"), r.randrange(1, 4)
+        def use(depth=0):
+            a, i = self.fresh("va"), self.fresh("i")
+            el = (lambda ix: idx(idx(var(a), ix), lit("int", lm - 1))) if two else (lambda ix: idx(var(a), ix))
+            return s_block([s_vlat(a, td),
+                            s_for(s_decl(i, T("int"), i_e(lit("int", 0))), bin_("<", var(i), lit("int", ln)), s_expr(incdec(var(i))),
+                                  s_asg("=", el(var(i)), bin_("+", cast(T("uint"), var(i)), self.atom(sc)))),
+                            s_obs(sizeof_(var(a))), s_obs(el(lit("int", r.randrange(ln))))])
+        out = [s_decl(n, T("uint"), i_e(lit("uint", ln)))]
+        if two:
+            out.append(s_decl(m, T(r.choice(["int", "ulong", "uchar"])), i_e(lit("int", lm))))
+        out.append(s_vtypedef(td, T(t), var(n), var(m) if two else None))
+        if r.random() < 0.6:      # the length expression's operands change after the typedef: the recorded size must not
+            out.append(s_asg("+=", var(n), lit("uint", r.randrange(1, 9))))
+        shape = r.randrange(4)
+        if shape == 0:
+            out.append(s_if(self.expr(sc, 2), use(), use()))
+        elif shape == 1:
+            out.append(s_if(self.expr(sc, 2), use()))
+        elif shape == 2:
+            i = self.fresh("i")
+            out.append(s_for(s_decl(i, T("int"), i_e(lit("int", 0))), bin_("<", var(i), lit("int", 3)), s_expr(incdec(var(i))),
+                             s_if(bin_("==", var(i), lit("int", 1)), use(), s_obs(var(i)))))
+        else:
+            out.append(s_switch(self.expr(sc, 2), [s_case(0), use(), s_break(), s_case(1), use(), s_break(), s_default(), use()]))
+        out.append(use())
+        return [s_block(out)]
+
     def special(self, sc):
         """VLAs, whole-struct copies, struct-by-value calls"""
         r = self.r
@@ -152,8 +185,8 @@ class Gen:
             sc["ints"][n] = "uint"
             sc["ro"].add(n)
             return out
-        if k < 0.1:
-            return self.special_switch(sc)
+        if k < 0.16:
+            return self.vtypedef(sc)
         if k < 0.2:
             n, a, i, t, ln = self.fresh("n"), self.fresh("al"), self.fresh("i"), r.choice(ALL), r.randrange(1, 7)
             out = [s_decl(n, T("uint"), i_e(lit("uint", ln))), s_alloca(a, T(t), var(n)),
@@ -547,17 +580,32 @@ def switch_program(rng, charsigned):
     return program([], g.globals, [func("main", T("int"), [], s_block(body))], charsigned)
 
 
+def vm_program(rng, charsigned):
+    """variably modified types: typedef names whose size is fixed where the typedef is reached, used on several paths"""
+    g = Gen(rng)
+    sc = g.scope(g.empty_scope()) if hasattr(g, "scope") else g.empty_scope()
+    body = []
+    for _ in range(rng.randrange(1, 4)):
+        body += g.stmts(sc, rng.randrange(0, 3), 0)
+        body += g.vtypedef(sc)
+    body.append(s_ret(lit("int", 0)))
+    return program(g.structs, g.globals, [func("main", T("int"), [], s_block(body))], charsigned)
+
+
 def random_programs(ctx, objdir, runtime):
     import props.c01 as c01
     n = 48 if ctx.quick else 600
     n_init = 24 if ctx.quick else 300
     n_sw = 6 if ctx.quick else 60
+    n_vm = 8 if ctx.quick else 120
     n_refine = 12 if ctx.quick else 80
     progs = []
-    for i in range(n + n_init + n_sw):
+    for i in range(n + n_init + n_sw + n_vm):
         t = ["x86_64-sysv", "aarch64", "riscv64"][i % 3] if not ctx.quick else ["x86_64-sysv", "aarch64"][i % 2]
         rng = random.Random(ctx.seed * 100003 + i)
-        if i >= n + n_init:
+        if i >= n + n_init + n_sw:
+            progs.append((vm_program(rng, c01.charsigned_of(t)), t))
+        elif i >= n + n_init:
             progs.append((switch_program(rng, c01.charsigned_of(t)), t))
         elif i >= n:
             progs.append((init_program(rng, c01.charsigned_of(t)), t))
